@@ -59,7 +59,9 @@ def run_script(args):
                     problems.append("no readyok after setoption %s %s" % (st[1], st[2]))
                     break
             else:
-                fen = POS[(idx + k) % len(POS)]
+                # the same position before and after an option change in half of the scripts (the first table access
+                # after a resize then repeats the last one before it), different positions in the other half
+                fen = POS[(idx + (k if idx % 2 else 0)) % len(POS)]
                 k += 1
                 mark = len(s.lines)
                 nb = s.counts["bestmove"]
